@@ -103,7 +103,10 @@ CLAIMED = {
             "sequential histories are replayed on a real database (returned version and path must match), and recorded "
             "concurrent executions (hook events sequenced under jiff's locks) must be behaviours of the model.",
             "Hooks under cfg(jiff_verif): mock monotonic clock, ttl setter, critical-section events. Staleness within the "
-            "ttl is the documented design and is allowed. The concatenated (Android) database is not modelled.",
+            "ttl is the documented design and is allowed. The concatenated (Android tzdata) database has its own model, "
+            "ConcatCache.tla (one file for all zones, no name index), model-checked the same way and bound by replaying "
+            "TLC-generated histories on TimeZoneDatabase::from_concatenated_path; its concurrent executions are not "
+            "trace-validated (the zoneinfo ones are).",
             "TLA+ model checking of the cache protocol + behaviour replay + concurrent trace validation", "DESIGN.md §5 C19"),
     "C20": ("model_checking",
             "TzHandle.tla models handle slots and reference counted heap objects; TLC checks RcInv / FreeInv / "
@@ -260,7 +263,7 @@ def main():
 
 
 NA = {}
-HOOK_COMMITS = ["4ffbea9", "708978f", "913b738", "0c1e3e2", "fec59c7"]
+HOOK_COMMITS = ["4ffbea9", "708978f", "913b738", "0c1e3e2", "fec59c7", "5da7c19"]
 
 if __name__ == "__main__":
     main()
